@@ -26,6 +26,7 @@ func init() {
 			"C09.R2 guard dominance (E6) on inserted keys and table indices; disequality of the two endpoints",
 			"C09.R3 reported state: range over the same field; no struct field of the reported type; must-pass-through of recompute+publish after every table-writing call in request closures",
 			"C09.R4 unconditional refresh in the distribution loop; per-processor trigger-list map; merge loop reads the keys of the receiver's own set; fan-out passes the receiver's own list",
+			"C09.R6 the secondary cutter creates one record per listed frame; a skip test is accepted only if, as polynomials, it removes no position of the window in which primaries are found",
 			"C09.R5 results of edit calls with request-derived arguments are used",
 		},
 		Assumptions: []string{"TriggerBroker and its fields sources/nconnections/nchannels/latestPrimaries are name-keyed anchors"},
@@ -58,6 +59,7 @@ func runC09(p *Prog, r *Report) {
 	r.MinInstances["C09.R3"] = 4
 	r.MinInstances["C09.R4"] = 5
 	r.MinInstances["C09.R5"] = 1
+	r.MinInstances["C09.R6"] = 1
 	rv, err := FindRendezvous(p)
 	if err != nil {
 		r.Unk("C09.anchor", "rendezvous", "-", err.Error())
@@ -72,6 +74,7 @@ func runC09(p *Prog, r *Report) {
 	c09R3(p, r, rv)
 	c09R4(p, r)
 	c09R5(p, r, rv)
+	c09R6(p, r)
 }
 
 type setEdit struct {
@@ -828,4 +831,169 @@ func c09R5(p *Prog, r *Report, rv *Rendezvous) {
 		})
 	}
 	_ = n
+}
+
+// ---- R6: every listed secondary becomes a record ------------------------------------------------
+
+// c09R6: the function that cuts the secondary records ranges over the frame list handed to the
+// processor and creates one record per element.  The creation may be skipped only for positions
+// at which no record can be cut: a skip test `index OP bound` is accepted when the positions it
+// removes lie outside [NPresamples, len(data) - (NSamples - NPresamples)], the window in which
+// primaries are found (C02.R3); the comparison is decided on polynomials, so `<= NPresamples`
+// (which also removes the first legal position) is reported while `< NPresamples` is not.
+func c09R6(p *Prog, r *Report) {
+	fn := p.Func("", "DataStreamProcessor", "TriggerDataSecondary")
+	if fn == nil {
+		r.Unk("C09.anchor", "DataStreamProcessor.TriggerDataSecondary", "-", "anchor not found")
+		return
+	}
+	r.Fn(FuncName(fn))
+	var loop *RangeLoop
+	for _, l := range RangeLoops(fn) {
+		if prm, ok := l.Over.(*ssa.Parameter); ok && len(fn.Params) > 1 && prm == fn.Params[1] {
+			loop = l
+		}
+	}
+	var mk *ssa.Call
+	Instrs(fn, func(in ssa.Instruction) {
+		if c, ok := in.(*ssa.Call); ok && c.Call.StaticCallee() != nil && typeName(c.Type()) == "DataRecord" {
+			mk = c
+		}
+	})
+	if loop == nil || mk == nil || !loop.Contains(mk.Block()) {
+		r.Bad("C09.R6", "one secondary record per listed frame", p.Pos(fn.Pos()), "no range loop over the frame list that creates a record per element was found")
+		return
+	}
+	if loop.EveryIteration(mk.Block()) {
+		r.OK("C09.R6", "one secondary record per listed frame", p.InstrPos(mk), "the record creation runs on every iteration of the loop over the list")
+		return
+	}
+	// conditional creation: examine the tests that control it
+	pc := NewPolyCtx(fn)
+	pc.G = true
+	I := pc.Of(mk.Call.Args[1]) // the stream index handed to the record cutter
+	npre := Poly(nil)
+	nsamp := Poly(nil)
+	ndata := Poly(nil)
+	Instrs(fn, func(in ssa.Instruction) {
+		if u, ok := in.(*ssa.UnOp); ok && u.Op == token.MUL {
+			if _, f, _, isF := FieldOf(u); isF {
+				switch f {
+				case "NPresamples":
+					npre = pc.Of(u)
+				case "NSamples":
+					nsamp = pc.Of(u)
+				}
+			}
+		}
+		if c, ok := in.(*ssa.Call); ok {
+			if b, isB := c.Call.Value.(*ssa.Builtin); isB && b.Name() == "len" {
+				if _, f, _, isF := FieldOf(c.Call.Args[0]); isF && f == "rawData" {
+					ndata = pc.Of(c)
+				}
+			}
+		}
+	})
+	bad := ""
+	for _, ct := range controllingIfs(mk.Block()) {
+		if !loop.Contains(ct.If.Block()) {
+			continue
+		}
+		// flatten `a || b` skip conditions: each If on the way is one comparison
+		bo, ok := ct.If.Cond.(*ssa.BinOp)
+		if !ok || npre == nil {
+			bad = "a test at " + p.InstrPos(ct.If) + " that is not a comparison of the position with a bound"
+			break
+		}
+		D := pc.Of(bo.X).Sub(pc.Of(bo.Y))
+		if !mentionsAny(D, I) {
+			if ct.If.Block() == loop.Header {
+				continue // the loop's own "more elements?" test
+			}
+			bad = "a test at " + p.InstrPos(ct.If) + " that does not concern the position of the frame"
+			break
+		}
+		op := bo.Op
+		// the creation is on branch ct.Branch; the skip happens when the condition has the other value
+		skipWhenTrue := ct.Branch == 1
+		if !skipWhenTrue { // skip when cond false: negate the operator
+			switch op {
+			case token.LSS:
+				op = token.GEQ
+			case token.LEQ:
+				op = token.GTR
+			case token.GTR:
+				op = token.LEQ
+			case token.GEQ:
+				op = token.LSS
+			default:
+				bad = "a test at " + p.InstrPos(ct.If) + " that is not an ordering comparison"
+			}
+		}
+		// D = I + K  (coefficient +1) or D = -I + K
+		K := D.Sub(I)
+		sign := int64(1)
+		if mentionsAny(K, I) {
+			K = D.Add(I)
+			sign = -1
+			if mentionsAny(K, I) {
+				bad = "a test at " + p.InstrPos(ct.If) + " whose dependence on the position is not linear"
+				break
+			}
+			// -I + K op 0  <=>  I - K op' 0 with op' mirrored
+			K = K.Neg()
+			switch op {
+			case token.LSS:
+				op = token.GTR
+			case token.LEQ:
+				op = token.GEQ
+			case token.GTR:
+				op = token.LSS
+			case token.GEQ:
+				op = token.LEQ
+			}
+		}
+		_ = sign
+		// skip when I + K op 0
+		nonneg := func(q Poly) bool { c, ok := q.IsConst(); return ok && c >= 0 }
+		var goal Poly
+		switch op {
+		case token.LSS: // I < -K : need -K <= npre
+			goal = npre.Add(K)
+		case token.LEQ: // I <= -K : need -K <= npre-1
+			goal = npre.Add(K).Sub(polyConst(1))
+		case token.GTR, token.GEQ:
+			if nsamp == nil || ndata == nil {
+				bad = "an upper-bound test at " + p.InstrPos(ct.If) + " but the record length or the data length is not read in this function"
+				break
+			}
+			maxValid := ndata.Sub(nsamp).Add(npre)
+			goal = K.Neg().Sub(maxValid) // I > -K : need -K >= maxValid
+			if op == token.GEQ {
+				goal = goal.Sub(polyConst(1))
+			}
+		}
+		if bad != "" {
+			break
+		}
+		if goal == nil || !nonneg(goal) {
+			bad = fmt.Sprintf("the test at %s, which also removes positions inside the window in which primaries are found (slack %s, must be >= 0)", p.InstrPos(ct.If), goal)
+			break
+		}
+	}
+	r.Check(bad == "", "C09.R6", "one secondary record per listed frame", p.InstrPos(mk), "the creation is skipped only for positions outside [NPresamples, len - (NSamples - NPresamples)]",
+		"a listed secondary can be skipped by "+bad+": the receiver emits fewer records than its sources' primaries")
+}
+
+func mentionsAny(q, of Poly) bool {
+	syms := map[string]bool{}
+	for _, s := range of.Symbols() {
+		syms[s] = true
+	}
+	for _, s := range q.Symbols() {
+		if syms[s] {
+			return true
+		}
+	}
+	return false
 }
